@@ -216,6 +216,7 @@ def run_case(case):
                 ok = check_status(label)
                 if ok:
                     ok = compare(label + " +status")
+        res.obs("history", {"kinds": "".join(kinds), "final_store": store, "hashing_enabled_at_end": enabled})
         res.mon("record_changes", len(changes))
         ks = "".join(kinds)
         res.sig = ks
